@@ -18,6 +18,8 @@ Print Assumptions C14_cap_invariant.
 Theorem C14_reports_count_le_channels : forall cf seq o, (length (snd (reports_of cf seq o)) <= size (o_defs o))%nat.
 Proof. exact HistoryLifts.reports_count_le_channels. Qed.
 Print Assumptions C14_reports_count_le_channels.
+Example C14_gen_report_count : (MaxOutcomeChannelDefinitionsLength <= MaxReportCount)%Z /\ Z.of_nat chan_cap = MaxOutcomeChannelDefinitionsLength.
+Proof. vm_compute. split; [discriminate|reflexivity]. Qed.
 
 (* regardless of what at most f faulty observers vote, the only changes are those the correct nodes voted for *)
 Theorem C14_only_agreed_changes : forall h f rm up tobs prev k, round_ok f rm up tobs ->
